@@ -17,7 +17,7 @@ Spec side (no builder, no Loop, no waveform classes):
 
 Repaired behaviour modelled (see fixes/): PF-01 (`TableWaveform._validate_input` uses `next_interp`),
 PF-02 (zero length linear segment takes the end value), PF-03 (`reverse_inplace` mirrors about
-`body_duration`).  PF-11 (`ParallelChannelPulseTemplate` chains `(global, parallel)`) is modelled as the
+`body_duration`), PF-04 (C08's repair: the last piece of a sequence / repetition waveform is right-closed).  PF-11 (`ParallelChannelPulseTemplate` chains `(global, parallel)`) is modelled as the
 code has it.
 -/
 namespace QP.PT
@@ -264,9 +264,9 @@ def Chain.apply (T : Chain) (data : List (Chan × Option Rat)) : List (Chan × O
 def Chain.outChans (T : Chain) (cs : List Chan) : List Chan :=
   T.foldl (fun c t => t.outChans c) cs
 
-/-- `is_constant_invariant`: single transformations with numeric values are; `ChainedTransformation`
-inherits the default `False` -/
-def Chain.constInvariant (T : Chain) : Bool := T.length == 1
+/-- `is_constant_invariant`: offset / scaling / parallel transformations with numeric (time independent)
+values are, and a `ChainedTransformation` is if all its members are -/
+def Chain.constInvariant (T : Chain) : Bool := T.all (fun _ => true)
 
 /-! ## Waveforms -/
 
@@ -363,10 +363,14 @@ def Wf.sample : Wf → Chan → Rat → Option Rat
   | .multi subs, ch, t => Wf.sampleMulti subs ch t
   | .seq subs, ch, t => Wf.sampleSeq subs ch t
   | .rep body n, ch, t =>
+      -- every repetition owns `[k*d, (k+1)*d)`, the last one `[(n-1)*d, n*d]` (PF-04 repaired)
       let d := body.duration
       if d ≤ 0 then none else
       let k := (t / d).floor
-      if k < 0 ∨ (n : Int) ≤ k then none else body.sample ch (t - k * d)
+      if k < 0 then none
+      else if k < (n : Int) then body.sample ch (t - k * d)
+      else if 0 < n ∧ t = d * n then body.sample ch d
+      else none
   | .trafo inner T, ch, t =>
       match (T.apply (Wf.sampleAll inner inner.channels t)).lookup ch with
       | some v => v
@@ -386,10 +390,13 @@ def Wf.sample : Wf → Chan → Rat → Option Rat
 def Wf.sampleMulti : List Wf → Chan → Rat → Option Rat
   | [], _, _ => none
   | w :: ws, ch, t => if w.channels.contains ch then w.sample ch t else Wf.sampleMulti ws ch t
-/-- `SequenceWaveform.unsafe_sample`: every piece owns `[start, end)` -/
+/-- `SequenceWaveform.unsafe_sample`: every piece owns `[start, end)`, the last one `[start, end]`
+(PF-04 repaired) -/
 def Wf.sampleSeq : List Wf → Chan → Rat → Option Rat
   | [], _, _ => none
-  | w :: ws, ch, t => if t < w.duration then w.sample ch t else Wf.sampleSeq ws ch (t - w.duration)
+  | [w], ch, t => if t ≤ w.duration then w.sample ch t else none
+  | w :: w' :: ws, ch, t =>
+      if t < w.duration then w.sample ch t else Wf.sampleSeq (w' :: ws) ch (t - w.duration)
 def Wf.sampleAll : Wf → List Chan → Rat → List (Chan × Option Rat)
   | _, [], _ => []
   | w, c :: cs, t => (c, w.sample c t) :: Wf.sampleAll w cs t
